@@ -473,6 +473,9 @@ impl JitCompiler {
     }
 
     fn emit_local_call(&mut self, mem: &mut JitMemory, target_pc: isize) {
+        // Five pushes plus the return address keep the native stack pointer congruent modulo 16 at
+        // every call depth (see the helper call below).
+        self.emit_push(mem, R10);
         self.emit_push(mem, map_register(6));
         self.emit_push(mem, map_register(7));
         self.emit_push(mem, map_register(8));
@@ -484,6 +487,7 @@ impl JitCompiler {
         self.emit_pop(mem, map_register(8));
         self.emit_pop(mem, map_register(7));
         self.emit_pop(mem, map_register(6));
+        self.emit_pop(mem, R10);
     }
 
     fn jit_compile(
@@ -952,9 +956,13 @@ impl JitCompiler {
                             // updated later, but not created after compiling (we need the address of the
                             // helper function in the JIT-compiled program).
                             if let Some(helper) = helpers.get(&(insn.imm as u32)) {
+                                // R10 (pointer to mem) is caller-saved in the C ABI: keep it across the
+                                // call. The push also aligns the stack pointer on 16 bytes as the ABI requires.
+                                self.emit_push(mem, R10);
                                 // We reserve RCX for shifts
                                 self.emit_mov(mem, R9, RCX);
                                 self.emit_call(mem, *helper as usize);
+                                self.emit_pop(mem, R10);
                             } else {
                                 Err(Error::other(
                                     format!(
